@@ -72,6 +72,8 @@ func localsText(rs []LRule) string {
 				fmt.Fprintf(&sb, "  t%d = %s\n  rd(e, %d, t%d)\n", n, op.Name, n, n)
 			case "H":
 				fmt.Fprintf(&sb, "  hold(e, %d)\n", n)
+			case "CF":
+				fmt.Fprintf(&sb, "  conc {\n    %s = wrhold(e, %d)\n    boomc()\n  }\n", op.Name, n)
 			case "WI":
 				fmt.Fprintf(&sb, "  inj.%s = wr(e, %d)\n", op.Name, n)
 			case "RI":
@@ -106,6 +108,12 @@ func localsAPI() map[string]interface{} {
 		"rd": func(e int64, i int64, v int64) {
 			theObs.Emit(obs.Event{"ev": "eop", "e": e, "i": i, "val": v})
 		},
+		"wrhold": func(e int64, i int64) int64 {
+			v := e*100 + i
+			theObs.Hold(obs.Event{"ev": "eop", "e": e, "i": i, "val": v}, "wrhold")
+			return v
+		},
+		"boomc": func() { panic("conc branch fails") },
 		"hold": func(e int64, i int64) {
 			theObs.Hold(obs.Event{"ev": "eop", "e": e, "i": i, "val": 0}, "hold")
 		},
